@@ -48,7 +48,9 @@ ASSUMPTIONS = [
     "grid, -N_i/2..ceil(N_i/2)-1), also in non-cubic boxes (a ball in index space, not in cycles/voxel) - measured on the unchanged "
     "code: hard-edge gain is exactly [k^2 <= cut^2] for every non-cubic box probed",
     "'box' / 'edge size' of the resolution rule and of the cutoff range 1..N/2 is the FIRST axis of the array (N0 = shape[0]), as the "
-    "code defines it; round() ties are not generated and are out of domain for the monitors",
+    "code defines it; an EXACT rounding tie box*pix/res = k + 1/2 (decided with Fractions of the float inputs, all float operations "
+    "exact) with k ODD is in domain with expected k + 1 (round-half-even and round-half-up agree) and is planted in every run; exact "
+    "ties with k EVEN (the two rules differ) and inexact near-ties are out of domain",
     "gain read off G = fftn(out)/fftn(in) on the bins that carry input (uncertainty tau(k) = 1e-9 + eta*max|F|/|F(k)| <= 1e-3; "
     "eta = 1e-12 for float64/integer maps, 1e-6 for float32 maps); since the filters return np.real(ifftn(.)) this is the "
     "k <-> -k average of the transfer function, i.e. what the user receives",
@@ -418,6 +420,9 @@ def gen(ctx, i, cls):
         s_lp, s_hp = _sigma(rng, True), _sigma(rng, True)
     elif cls == "resolution_cubic":
         n = _size(rng, big)
+        if i % (3 * len(CLASSES)) < len(CLASSES):          # every third case of the class: a box that has exact odd-floor rounding ties
+            pool = [m for m in range(8, 49) if O.odd_floor_ties(m)]
+            n = int(pool[int(rng.integers(0, len(pool) if big else min(len(pool), 9)))])
         shape = (n, n, n)
         s_lp, s_hp = _sigma(rng, True), _sigma(rng, True)
         c["mode_lp"] = c["mode_hp"] = "resolution"
@@ -498,8 +503,15 @@ def gen(ctx, i, cls):
         c["pix"], c["lp_res"] = pix, res
         c["hp_res"] = _res_for(rng, n0, hp_cut, pix)
     elif "resolution" in (c["mode_lp"], c["mode_hp"]):
-        c["pix"] = round(float(rng.uniform(0.5, 12.0)), 3)
-        c["lp_res"] = _res_for(rng, n0, lp_cut, c["pix"])
+        ties = O.odd_floor_ties(n0) if (cls == "resolution_cubic" and i % (3 * len(CLASSES)) < len(CLASSES)) else []
+        if ties:
+            # exact rounding tie k + 1/2 with k odd: half-even and half-up agree on k + 1 (in domain); every third case of the class
+            c["pix"], c["lp_res"], lp_cut = ties[int(rng.integers(0, len(ties)))]
+            c["tie"] = True
+            hp_cut = int(rng.integers(1, lp_cut + 1))
+        else:
+            c["pix"] = round(float(rng.uniform(0.5, 12.0)), 3)
+            c["lp_res"] = _res_for(rng, n0, lp_cut, c["pix"])
         c["hp_res"] = _res_for(rng, n0, hp_cut, c["pix"])
     elif rng.random() < 0.2:
         c["pix_with_pixels"] = True
@@ -539,7 +551,7 @@ def gen(ctx, i, cls):
         c["amp"] = round(float(rng.uniform(0.1, 50.0)), 3)
         c["nontrivial"] = any(k[0] ** 2 + k[1] ** 2 + k[2] ** 2 > cc for k in ks) and any(0 < k[0] ** 2 + k[1] ** 2 + k[2] ** 2 <= cc for k in ks)
     c["summary"] = {k: c.get(k) for k in ("shape", "kind", "lp_cut", "hp_cut", "s_lp", "s_hp", "mode_lp", "mode_hp", "pix", "lp_res", "hp_res",
-                                         "defaults", "pix_with_pixels", "pixtype", "rel_filter", "roll", "coef", "ks", "phases", "amp", "write")}
+                                         "defaults", "pix_with_pixels", "pixtype", "tie", "rel_filter", "roll", "coef", "ks", "phases", "amp", "write")}
     return c
 
 
@@ -776,6 +788,34 @@ def extra(ctx):
             ctx.call("get_filter_radius", cm.get_filter_radius, N, None, res, pix)
             n += 1
     ctx.extra["resolution_rule_all_edges_8_to_48_times_all_cutoffs"] = n
+    # (3b) exact rounding ties k + 1/2 with k odd (half-even and half-up agree on k + 1): the rule itself on every such tie of every
+    #      edge 8..48, and the three filters + the plane wave at frequency k + 1 (must pass the low-pass) on a subset
+    n = nf = 0
+    for N in range(8, 49):
+        ties = O.odd_floor_ties(N)
+        for t, (pix, res, cut) in enumerate(ties):
+            ctx.cur = {"index": "extra", "cls": "odd_floor_ties", "summary": {"edge": N, "pix": pix, "res": res, "cut": cut}}
+            ctx.call("resolution2pixels", cm.resolution2pixels, res, N, pix, print_out=False)
+            ctx.call("get_filter_radius", cm.get_filter_radius, N, None, res, pix)
+            n += 1
+            if t == N % max(1, len(ties)) and (big or N <= 30):
+                shape = (N, 8 + (N * 7) % 11, 8 + (N * 5) % 13) if N % 2 else (N, N, N)
+                x = O.whiten(rng.normal(size=shape), rng)
+                sg = [0, 0, 1, 2][N % 4]
+                ok1, y1 = ctx.call("lowpass", cm.lowpass, x.copy(), target_resolution=res, pixel_size=pix, gaussian=sg)
+                ok2, y2 = ctx.call("lowpass(pixels)", cm.lowpass, x.copy(), fourier_pixels=cut, gaussian=sg)
+                if ok1 and ok2:
+                    _close(ctx, "resolution_equiv", y1, y2, float(np.abs(x).max()), {"box": list(shape), "pix": pix, "res": res, "cut": cut,
+                                                                                     "filter": "lowpass", "tie": True}, tol=1e-12)
+                ctx.call("highpass", cm.highpass, x.copy(), target_resolution=res, pixel_size=pix, gaussian=sg)
+                ctx.call("bandpass", cm.bandpass, x.copy(), lp_target_resolution=res, hp_fourier_pixels=max(1, cut - 1), pixel_size=pix,
+                         lp_gaussian=sg, hp_gaussian=sg)
+                case = {"lp_cut": cut, "hp_cut": 1, "s_lp": 0, "s_hp": 0, "mode_lp": "resolution", "mode_hp": "resolution", "pixtype": "int",
+                        "pix_with_pixels": False, "pix": pix, "lp_res": res, "hp_res": res, "defaults": False}
+                run_plane_waves(ctx, case, shape, [[cut, 0, 0], [cut + 1 if cut + 1 <= N // 2 else cut - 1, 0, 0]], [0.3, 0.3], 1.0, with_bandpass=False)
+                nf += 1
+    ctx.extra["exact_odd_floor_rounding_ties_all_edges_8_to_48"] = n
+    ctx.extra["filters_and_plane_waves_driven_at_an_exact_rounding_tie"] = nf
     # (4) the documented refusal (no cutoff given) - outside the quantifier, reached for the anchor counters only
     try:
         cm.get_filter_radius(16, None, None, None)
